@@ -31,8 +31,19 @@ PIVOT_B = {
 }
 
 
+_BIN = {"control": {"k": ["x", "y"], "v": ["x", "y"]}, "record_keys": ["g"], "control_table_keys": ["k"]}
+_BIN2 = {"control": {"k": ["x", "y"], "v": ["y", "x"]}, "record_keys": ["g"], "control_table_keys": ["k"]}
+# block-to-block maps (both sides set): same incoming layout / different outgoing control table, and vice versa
+BLOCK_BLOCK_1 = {"blocks_in": _BIN, "blocks_out": {"control": {"k2": ["p", "q"], "v2": ["x", "y"]}, "record_keys": ["g"], "control_table_keys": ["k2"]}}
+BLOCK_BLOCK_2 = {"blocks_in": _BIN, "blocks_out": {"control": {"k2": ["p", "q"], "v2": ["y", "x"]}, "record_keys": ["g"], "control_table_keys": ["k2"]}}
+BLOCK_BLOCK_3 = {"blocks_in": _BIN2, "blocks_out": {"control": {"k2": ["p", "q"], "v2": ["x", "y"]}, "record_keys": ["g"], "control_table_keys": ["k2"]}}
+
+
 def eq_menu(cols, roles, depth, hist):
-    return menus.core_menu(cols, roles, depth, hist) + menus.cdata_items(cols, roles)
+    items = menus.core_menu(cols, roles, depth, hist) + menus.cdata_items(cols, roles)
+    if {"g", "k", "v"} <= set(cols):
+        items.append({"op": "convert_records", "map": BLOCK_BLOCK_1})
+    return items
 
 
 def literal_variants(e):
@@ -79,7 +90,7 @@ def step_mutants(step, prefix_cols, prefix_roles, depth):
         for alt in literal_variants(step["expr"]):
             out.append({"op": "select_rows", "expr": alt})
     if kind == "convert_records":
-        for m in (menus.UNPIVOT, UNPIVOT_B, UNPIVOT_C, menus.PIVOT, PIVOT_B):
+        for m in (menus.UNPIVOT, UNPIVOT_B, UNPIVOT_C, menus.PIVOT, PIVOT_B, BLOCK_BLOCK_1, BLOCK_BLOCK_2, BLOCK_BLOCK_3):
             if m != step["map"]:
                 out.append({"op": "convert_records", "map": m})
     if kind == "natural_join":
